@@ -36,6 +36,7 @@ type WitnessDef struct {
 	What string `json:"what"`
 	// Label overrides the evidence label (default: witness); TimeoutS /
 	// ThoroughTimeoutS the go test timeout of the tier (default 120 s)
+	Env              []string `json:"env"` // extra environment of the test run (KEY=VALUE)
 	Label            string `json:"label"`
 	TimeoutS         int    `json:"timeout_s"`
 	ThoroughTimeoutS int    `json:"thorough_timeout_s"`
@@ -629,6 +630,7 @@ func runWitness(ld *Loader, verif string, wd WitnessDef, dir string, tier string
 	cmd := exec.Command("go", "test", "-overlay", ovFile, "-vet=off", "-timeout", fmt.Sprintf("%ds", to), "-count=1", "-v", "-run", "^"+wd.Test+"$", ".")
 	cmd.Dir = p.Dir
 	cmd.Env = append(os.Environ(), "GOFLAGS=-mod=mod", "GOPROXY=off", "GOSUMDB=off", "GOTOOLCHAIN=local", "VERIF_TIER="+tier)
+	cmd.Env = append(cmd.Env, wd.Env...)
 	out, _ := cmd.CombinedOutput()
 	cases := map[string]string{}
 	for _, l := range strings.Split(string(out), "\n") {
